@@ -68,10 +68,18 @@ def Cmd.exec (mm : MM) (s : St) : Cmd → St × Res
   | .add x f v idx => step mm s (.insert x f idx v)
   | .remove x f _ idx => step mm s (.pop x f idx)
   | .move x f v frm to =>
+    -- `self.value = self._collection.pop(self.from_index)`: what is inserted is what was popped
     let r := step mm s (.pop x f frm)
     match r.2 with
     | .error e => (r.1, .error e)
-    | .ok _ => step mm r.1 (.insert x f to v)
+    | .ok popped => step mm r.1 (.insert x f to (popped.getD v))
+
+/-- the command object after `do_execute` ran in state `s`: Remove and Move remember the element they popped (on the
+    first execution that is the value `prepare` found; on a redo it may be another one) -/
+def Cmd.after (mm : MM) (s : St) : Cmd → Cmd
+  | .move x f v frm to => .move x f (((slotVals mm s x f)[frm]?).getD v) frm to
+  | .remove x f v idx => .remove x f (((slotVals mm s x f)[idx]?).getD v) idx
+  | c => c
 
 def Cmd.undo (mm : MM) (s : St) : Cmd → St × Res
   | .set x f _ prev => step mm s (.set x f prev)
@@ -104,7 +112,7 @@ def cstep (mm : MM) (cs : CStack) (s : St) : Letter → CStack × St × String
       let r := c.exec mm s
       match r.2 with
       | .error _ => (cs, r.1, "exec-raised")
-      | .ok _ => ({ stack := cs.stack.take cs.n ++ [c], n := cs.n + 1 }, r.1, "ok")     -- the redo tail is dropped
+      | .ok _ => ({ stack := cs.stack.take cs.n ++ [c.after mm s], n := cs.n + 1 }, r.1, "ok")     -- the redo tail is dropped
   | .undo =>
     if cs.n = 0 then (cs, s, "err") else
     match cs.stack[cs.n - 1]? with
@@ -121,6 +129,6 @@ def cstep (mm : MM) (cs : CStack) (s : St) : Letter → CStack × St × String
       let r := c.redo mm s
       match r.2 with
       | .error _ => (cs, r.1, "err")
-      | .ok _ => ({ cs with n := cs.n + 1 }, r.1, "ok")
+      | .ok _ => ({ stack := cs.stack.set cs.n (c.after mm s), n := cs.n + 1 }, r.1, "ok")
 
 end Store
